@@ -48,8 +48,7 @@ MANIFEST = dict(
          "under explicit embeddings. Tied to Map.rate/MapSet.rate/OsuMap.rate/SMMapSet.rate by in-Coq correspondence on charts of all five games "
          "(model output = implementation output, original untouched, file-level fields included).",
     note="Trusted: Coq kernel+VM, harness; binary64 exact on the exact stream by construction, measured (1e-9) on the rounded stream. Open: closure "
-         "of the osu / StepMania / BMS writer domains under rate (hypothesis on the rated chart), C03's theorem "
-         "does not state the written tempo list. Fixed findings: SM offset unscaled (0398fe5), osu preview marker scaled (09d92a7).",
+         "of the osu / StepMania / BMS writer domains under rate (hypothesis on the rated chart). Fixed findings: SM offset unscaled (0398fe5), osu preview marker scaled (09d92a7).",
     technique="Coq proof (composition of stacker refinement; composition with the formats' writer theorems) + vm_compute correspondence",
     design="4/C13")
 
